@@ -69,7 +69,7 @@ def run(rep, tier, seed, model_ok=True, effort=1):
         sample = [l for l in allv if sum(1 for k in l[0] if k != "absent") <= 1 and sum(l[1]) in (0, 3)]
         sample += r.sample(allv, 110 * effort)
     else:
-        sample = r.sample(allv, min(len(allv), 2500 * effort))
+        sample = list(allv)     # every one of the 8192 layouts
         rep.exhaustive = len(sample) == len(allv)
     import datetime as dt
     items, meta = [], []
